@@ -3,6 +3,16 @@
 import json, pathlib, sys
 V = pathlib.Path(__file__).resolve().parent.parent
 CHECKS = {
+ "C17": dict(
+   technique="property-based testing: round-trip oracle (code_str -> harness Pratt parser -> random interpretation at 50 digits) over Hypothesis-generated canonical trees + exhaustive sweep of the 619 documented catalogue members in source form",
+   text="Every generated canonical tree (4k quick / 150k thorough) and every documented catalogue equation in source form is rendered, parsed by an independent parser under ordinary precedence (lexicon of display names), and both sides are evaluated under 3 random environments; calculus nodes are linear functionals. Detects dropped brackets, lost signs, swapped arguments, wrong names; renderings outside the parser grammar are counted as unparsed, not as correct.",
+   note="Trusted: the grammar in vp/parse/code_parser.py as 'ordinary reading', the value semantics in vp/model/interp.py, mpmath. A Float atom means the decimal SymPy shows for it. Unevaluated (non-canonical) shapes are covered only through the catalogue.",
+   ref="DESIGN.md section 2/C17"),
+ "C18": dict(
+   technique="property-based testing: well-formedness scan + round-trip oracle (latex_str -> harness LaTeX reader -> random interpretation) over generated canonical trees + exhaustive catalogue sweep",
+   text="Same two sources as C17; each LaTeX string must pass the brace/\\left-\\right/environment scan and, read as mathematics by an independent reader (juxtaposition = product, prefix operators take the rest of their product), evaluate to the same value as the original under 3 random environments.",
+   note="Trusted: the reading rules in vp/parse/latex_parser.py, vp/model/interp.py. 13 catalogue renderings (Order terms, Bessel/Hermite heads, derivatives with respect to applied functions) are outside the reader and listed as unparsed in the evidence. One open known finding (statistical_weight_of_macrostate).",
+   ref="DESIGN.md section 2/C18"),
  "C14": dict(
    technique="property-based testing: Hypothesis-generated vector-expression trees + creation-order permutations vs. harness R^3 component model (reference-model oracle), dual-number derivative oracle, greedy shrinking to replay files",
    text="Generated search (8k trees + 1k derivative cases quick, 300k + 30k thorough, 16 shards) over expression trees, operand repetitions and relative id() orders of the atoms; every auto-evaluated / doit() / diff() result is compared with an independent component model in 60-digit arithmetic. Finds rule-level rewrite errors that only fire for particular identity orders; does not prove absence.",
